@@ -93,6 +93,7 @@ type VC struct {
 	allocBound       map[*ssa.Alloc]string
 	relSpecs         map[string]bool
 	warnings         []string
+	closureParam     *Val
 	missing          []missingClause
 	pendingGhostInit bool
 	ghostT           map[string]*GT
@@ -545,6 +546,34 @@ func (vc *VC) generate() (err error) {
 	// parameters and free variables
 	for _, p := range fn.Params {
 		v := vc.freshVal("p_"+p.Name(), p.Type())
+		if vc.fc != nil && vc.fc.Opts["closure"] != "" {
+			// "option closure=param:fn": inside the body the parameter is the
+			// closure fn with symbolic bindings (every call site is checked to
+			// pass exactly that closure)
+			pf := strings.SplitN(vc.fc.Opts["closure"], ":", 2)
+			if len(pf) == 2 && pf[0] == p.Name() {
+				var target *ssa.Function
+				for _, f := range vc.prog.funcs {
+					if f.Name() == pf[1] && f.Pkg == fn.Pkg {
+						target = f
+					}
+				}
+				if target == nil {
+					panic(unsupported("closure %s named by the contract does not exist", pf[1]))
+				}
+				v = Val{K: KFunc, T: p.Type(), Fn: target, S: "1"}
+				for _, fv := range target.FreeVars {
+					pt := fv.Type().(*types.Pointer).Elem()
+					b := Val{K: KPtr, T: fv.Type(), S: vc.fresh("cl_"+fv.Name(), "Addr")}
+					if isScalarType(pt) {
+						b.Heap = vc.regComp(elemComp(pt), sortOfType(pt))
+					}
+					vc.assume(and(sx("<", sx("rootOf", b.S), st.alloc), sx("<=", "0", sx("rootOf", b.S))))
+					v.Fs = append(v.Fs, b)
+				}
+				vc.closureParam = &v
+			}
+		}
 		vc.regs[p] = v
 		vc.params[p.Name()] = v
 		vc.assume(vc.typeAssume(v, st.alloc))
